@@ -154,6 +154,7 @@ type Explorer struct {
 	witness map[string]uint64
 	memo    map[int]uint64
 
+	known    map[int]bool // term ids asserted on this path (true) / whose negation was asserted (false)
 	obs      []obsTerm
 	reached  []string
 	asserted map[string]bool
@@ -181,6 +182,7 @@ func (e *Explorer) startPath(it WorkItem) {
 	e.obs, e.reached = nil, nil
 	e.asserted = map[string]bool{}
 	e.failed = ""
+	e.known = map[int]bool{}
 	e.s.Reset()
 }
 
@@ -262,12 +264,23 @@ func (e *Explorer) branch(c *Term) bool {
 	}
 	if e.replaying() {
 		v := e.next()
-		if v == 1 {
-			e.s.Assert(c)
-		} else {
-			e.s.Assert(e.tb.Not(c))
+		if _, ok := e.known[c.id]; !ok {
+			if v == 1 {
+				e.s.Assert(c)
+			} else {
+				e.s.Assert(e.tb.Not(c))
+			}
+			e.note(c, v == 1)
 		}
 		return v == 1
+	}
+	if kv, ok := e.known[c.id]; ok { // decided syntactically by an earlier assertion of the same term
+		if kv {
+			e.decide(1)
+		} else {
+			e.decide(0)
+		}
+		return kv
 	}
 	dir := e.evalW(c) == 1
 	var other *Term
@@ -298,7 +311,15 @@ func (e *Explorer) branch(c *Term) bool {
 		e.decide(0)
 		e.s.Assert(e.tb.Not(c))
 	}
+	e.note(c, dir)
 	return dir
+}
+
+func (e *Explorer) note(c *Term, v bool) {
+	e.known[c.id] = v
+	if c.op == "not" {
+		e.known[c.args[0].id] = !v
+	}
 }
 
 func (e *Explorer) assume(c *Term) bool {
